@@ -96,6 +96,10 @@ static void set_position(struct context_data *ctx, int pos, int dir)
 				if (dir < 0) {
 					if (pos > start) {
 						pos--;
+					} else {
+						/* Skip marker at the start of the
+						 * sequence: nowhere left to go. */
+						break;
 					}
 				} else {
 					pos++;
